@@ -608,8 +608,18 @@ class Interpreter:
                 last_before_lca = state
 
             # Take all the descendants of this state and list the ones that are active
+            # Siblings are considered by name, so that the order in which states are exited
+            # does not depend on the order in which they were declared.
             # Mind the reversed order!
-            for descendant in self._statechart.descendants_for(last_before_lca)[::-1]:
+            descendants = []  # type: List[str]
+            states_to_consider = [last_before_lca]
+            while states_to_consider:
+                state = states_to_consider.pop(0)
+                for child in sorted(self._statechart.children_for(state), reverse=True):
+                    states_to_consider.append(child)
+                    descendants.append(child)
+
+            for descendant in descendants[::-1]:
                 # Only leave states that are currently active
                 if descendant in self._configuration:
                     exited_states.append(descendant)
